@@ -15,6 +15,21 @@ import EdsProofs.PodBuild
 -/
 namespace Eds
 
+theorem edsMain_deleted (d : EDS) (list : List ERS) (u : ERS) (pods : List Pod) (nodes : List Node) (now : Time) :
+    (edsMain d list u pods nodes now).deletedErs =
+      cleanupTargetsERS now list (currentOf d list u now).1.name u.name := by
+  unfold edsMain
+  simp only []
+  split <;> rfl
+
+theorem edsMain_created (d : EDS) (list : List ERS) (u : ERS) (pods : List Pod) (nodes : List Node) (now : Time) :
+    (edsMain d list u pods nodes now).created = none := by
+  unfold edsMain
+  simp only []
+  split <;> rfl
+
+
+
 /-! ### `lastWhere` -/
 
 theorem lastWhere_eq_none_iff {α} (p : α → Bool) (l : List α) :
